@@ -92,6 +92,13 @@ def build_case(work, n, case):
                 which = "A"
             else:
                 which = "B"
+        if sc.get("cmd") == "spacePath":
+            # an absolute command whose path contains blanks (it is ONE executable, not a command line)
+            os.makedirs(os.path.join(sd, "my tools dir"))
+            launcher = os.path.join(sd, "my tools dir", "launch server")
+            _wrapper(launcher, "S")
+            entry["command"] = launcher
+            which = "S"
         if envv != "ABSENT":
             entry["env"] = envv
         if TIMEOUTS[sc["timeout"]] != "ABSENT":
@@ -178,7 +185,7 @@ def run_case(arg):
                 except Exception as e:
                     obs["outcome"] = "other:" + type(e).__name__
             elif case["entry"] == "cliTest":
-                ok = anyio.run(cli.test_server, path, names[0], False)
+                ok = anyio.run(cli.test_server, path, names[0], bool(case.get("verbose")))
                 obs["outcome"] = "connected" if ok is True else "reportedFailure"
             else:
                 called = {}
